@@ -180,6 +180,57 @@ def run(tier='quick', repo=None):
                             'the destination keeps its previous value, and a lookup after the copy returns something the source never held' % name} if ex else {}))
     if ncopy < 9:
         raise facts.AnalysisBroken('only %d uref_attr_copy_T functions found' % ncopy)
+    # ---- R-list-all ----------------------------------------------------------------------
+    rep.rule('R-list-all', 'uref_attr_delete_list applies every deletion of its list: no branch of the function depends on the verdict of a deletion (deleting an '
+             'attribute that is absent reports an error, and the attributes behind it - uref_uri_delete, the aes and m3u lists - must go all the same)')
+    fdl = H.funcs.get('uref_attr_delete_list')
+    if fdl is None or not fdl.blocks:
+        raise facts.AnalysisBroken('anchor vanished: uref_attr_delete_list')
+    verdicts = set()
+    for _, _, x in fdl.nodes():
+        if is_assign(x) and isinstance(strip_all_casts(fdl.resolve(x['rhs'])), dict) and strip_all_casts(fdl.resolve(x['rhs'])).get('k') == 'call' \
+                and not strip_all_casts(fdl.resolve(x['rhs'])).get('fn'):
+            l = strip(x['lhs'])
+            if isinstance(l, dict) and l.get('k') == 'ref':
+                verdicts.add(l['n'])
+    dep = [b for b in fdl.blocks if fdl.cond(b) and any(isinstance(y, dict) and y.get('k') == 'ref' and y.get('n') in verdicts for y in walk(fdl.resolve(fdl.cond(b)[0])))]
+    ncall = sum(1 for _, _, x in fdl.nodes() if x.get('k') == 'call' and not x.get('fn'))
+    if ncall < 1:
+        raise facts.AnalysisBroken('uref_attr_delete_list: the call through the list was not found')
+    rep.add('R-list-all', 'uref_attr_delete_list', VIOLATED if dep else HOLDS, fdl.loc,
+            **({'what': 'the loop of uref_attr_delete_list tests the verdict of the previous deletion (%s): it stops at the first attribute that is already absent and leaves '
+                        'the rest of the list in the dictionary' % sorted(verdicts)} if dep else {}))
+    # ---- R-shorthand-bound ---------------------------------------------------------------
+    rep.rule('R-shorthand-bound', 'udict_inline_shorthand interpreted on the first and the last shorthand type, on the value just past the last one and the next: it '
+             'returns the table row of a shorthand type and NULL for anything beyond - never a pointer past inline_shorthands[]')
+    from upv import dictapi as _dictapi
+    from upv.absint import Finding as _F, Undecided as _U, PathEnd as _P
+    fsh = u.funcs.get('udict_inline_shorthand')
+    if fsh is None or not fsh.blocks:
+        raise facts.AnalysisBroken('anchor vanished: udict_inline_shorthand')
+    E_ = u.enumerators
+    base_ = E_.get('UDICT_TYPE_SHORTHAND')
+    nsh = len([k for k, v in E_.items() if k.startswith('UDICT_TYPE_') and isinstance(v, int) and base_ is not None and v > base_])
+    if base_ is None or nsh < 10:
+        raise facts.AnalysisBroken('shorthand enumerators not found')
+    for off, want_row in ((1, 0), (nsh, nsh - 1), (nsh + 1, None), (nsh + 2, None)):
+        what = None
+        try:
+            mm = _dictapi.DictAPI(prog, u)
+            r = mm.run(fsh, [base_ + off])
+            if want_row is None:
+                if r != ('null',):
+                    what = 'type SHORTHAND+%d (past the last shorthand, SHORTHAND+%d) yields %r instead of NULL: a row beyond the table' % (off, nsh, r)
+            elif not (isinstance(r, tuple) and r[0] == 'p' and r[2] == want_row):
+                what = 'type SHORTHAND+%d yields %r, expected row %d' % (off, r, want_row)
+        except _F as f_:
+            what = str(f_)
+        except _P:
+            what = 'an assert() fails'
+        except _U as e_:
+            rep.add('R-shorthand-bound', 'SHORTHAND+%d' % off, UNDECIDED, fsh.loc, why=str(e_))
+            continue
+        rep.add('R-shorthand-bound', 'SHORTHAND+%d' % off, VIOLATED if what else HOLDS, fsh.loc, **({'what': what} if what else {}))
     # ---- R-set-refusal ------------------------------------------------------------------
     rep.rule('R-set-refusal', 'udict_inline_set: once the previous attribute of another size has been removed (udict_inline_delete) no refusal other than the allocation '
              'failure of the growth is reachable - every validation of the request comes before the dictionary is touched, so a refused set leaves the value '
